@@ -9,7 +9,7 @@ rel() { case "$1" in
  C17) echo C17,C13,C14;; C18) echo C18,C13,C14;; C19) echo C19,C03,C14;; C20) echo C20,C04,C13,C14;; esac; }
 for d in $src/C??; do
   id=$(basename $d)
-  for i in 1 2; do
+  for i in 1 2 3; do
     [ -f $d/mutant_$i.diff ] || continue
     name="${id}-${tag}$i"
     [ -f /verif/seeded/$name/meta.json ] && [ -z "$mode" ] && continue
